@@ -142,6 +142,31 @@ def stream_atoms(env):
     return a
 
 
+_ROW_ATOMS = {'self.buffer_pos': 'POS', 'self.buffer_reported_pos': 'REP', 'self.absolute_pos': 'ABS', 'self.buf.min': 'MIN',
+              'util::buffer::Buffer::min_buffer_len(self.buf)': 'MIN', 'core::slice::len(util::buffer::Buffer::buffer(self.buf))': 'LEN'}
+
+
+def _rows_eval(cx, b, env):
+    """the same evaluation on the function's path summaries: the one row selected by the assignment gives the result"""
+    from acverif.sym import summarize, cstr, teval, row_holds
+
+    def atoms(t):
+        s = cstr(t)
+        if s in _ROW_ATOMS:
+            return env.get(_ROW_ATOMS[s])
+        if re.match(r'util::search::Match::len\(', s):
+            return env.get('MLEN')
+        return None
+    rows = [r for r in summarize(cx.facts, b) if r.end == 'return']
+    try:
+        sel = [r for r in rows if row_holds(r, atoms)]
+    except (KeyError, TypeError, IndexError) as e:
+        raise Unsupported(str(e))
+    if len(sel) != 1:
+        raise Unsupported('%d summary rows selected' % len(sel))
+    return teval(sel[0].ret, atoms)
+
+
 @only(STREAM_CONFIGS)
 def r08_1(cx):
     import itertools
@@ -157,7 +182,10 @@ def r08_1(cx):
                     continue
                 n += 1
                 try:
-                    got = Eval(b, stream_atoms(env)).run()
+                    try:
+                        got = Eval(b, stream_atoms(env)).run()
+                    except Unsupported:
+                        got = _rows_eval(cx, b, env)     # spellings the block evaluator does not know (combinators, closures)
                 except EvalPanic as e:
                     got = ('panic', str(e))
                 if got != want:
